@@ -19,6 +19,7 @@ require (
 	github.com/cosmos/cosmos-sdk v0.45.4
 	github.com/ethereum/go-ethereum v1.10.25
 	github.com/gogo/protobuf v1.3.3
+	github.com/status-im/keycard-go v0.0.0-20190316090335-8537d3370df4
 	github.com/tendermint/tendermint v0.34.19
 	github.com/tendermint/tm-db v0.6.6
 	google.golang.org/grpc v1.45.0
